@@ -399,6 +399,9 @@ func (g *Gen) externalWrites(fn *ssa.Function, ws *WriteSet) {
 		for _, h := range []string{fail, open, count, zdom, zdata, zentry} {
 			ws.Names[h] = true
 		}
+	case "(*archive/zip.File).Open", "io.ReadAll":
+		src, unread := zipReadHeaps(g)
+		ws.Names[src], ws.Names[unread] = true, true
 	case "fmt.Sscanf", "fmt.Sscan":
 		ws.Names[g.TE.CellHeap(types.Typ[types.Int])] = true
 		ws.Names[g.TE.CellHeap(types.Typ[types.Float64])] = true
@@ -503,6 +506,10 @@ func (g *Gen) loopWrites(fn *ssa.Function, li *loopInfo) *WriteSet {
 					if !star {
 						continue
 					}
+				}
+				if cal.String() == "io.ReadAll" {
+					// allocates and fills a fresh byte array: inside a loop the cell heap gets a new version per iteration
+					ws.Names[g.TE.CellHeap(types.Universe.Lookup("byte").Type())] = true
 				}
 				ws.add(g.WriteSetOf(cal))
 			}
